@@ -87,11 +87,46 @@ def mk_or(*xs):
     return ('or', tuple(out))
 
 
+def _assume(t, atom, value: bool):
+    """t with every inner conditional on `atom` resolved (atom is known to be `value` where t is evaluated)"""
+    if not isinstance(t, tuple) or not t:
+        return t
+    if t[0] == 'ite' and len(t) == 4:
+        c = t[1]
+        if c == atom:
+            return _assume(t[2] if value else t[3], atom, value)
+        if isinstance(c, tuple) and c and c[0] == 'not' and c[1] == atom:
+            return _assume(t[3] if value else t[2], atom, value)
+    if t[0] in ('table',):
+        return t
+    return tuple(_assume(x, atom, value) if isinstance(x, tuple) else x for x in t)
+
+
 def mk_ite(c, a, b):
     if c == TRUE:
         return a
     if c == FALSE:
         return b
+    # inside the then-branch the conjuncts of c hold, inside the else-branch of a single test it does not
+    if isinstance(c, tuple) and c:
+        pos = [x for x in c[1]] if c[0] == 'and' else [c]
+        for x in pos:
+            if isinstance(x, tuple) and x and x[0] == 'not':
+                a = _assume(a, x[1], False)
+            elif isinstance(x, tuple) and x and x[0] not in ('and', 'or', 'bf'):
+                a = _assume(a, x, True)
+        if c[0] not in ('and', 'or', 'bf', 'not'):
+            b = _assume(b, c, False)
+        if c[0] == 'bf':
+            atoms_, bits_ = c[1], c[2]
+            n_ = len(atoms_)
+            for k_, at_ in enumerate(atoms_):
+                vals_t = {bool((idx >> (n_ - 1 - k_)) & 1) for idx, bit in enumerate(bits_) if bit}
+                vals_f = {bool((idx >> (n_ - 1 - k_)) & 1) for idx, bit in enumerate(bits_) if not bit}
+                if len(vals_t) == 1:
+                    a = _assume(a, at_, vals_t.pop())
+                if len(vals_f) == 1:
+                    b = _assume(b, at_, vals_f.pop())
     if a == b:
         return a
     if isinstance(c, tuple) and c and c[0] == 'not':
@@ -620,6 +655,10 @@ class Extractor:
             n = fn.id
             if n == 'bool' and len(args) == 1:
                 return self.truth(args[0])
+            if not args and not e.keywords and n in ('list', 'tuple'):
+                return ('list', ())
+            if not args and not e.keywords and n == 'dict':
+                return ('dict', ())
             if n == 'len' and len(args) == 1:
                 a0 = args[0]
                 if a0[0] == 'call' and a0[1] == 'list' and len(a0) > 2 and len(a0[2]) == 1:
@@ -683,7 +722,7 @@ class Extractor:
                 v = self.inline_value(fd, args, p)
                 if v is not None:
                     return v
-            kw = tuple(sorted((k.arg or '**', canon(self.expr(k.value, p, bound))) for k in e.keywords))
+            kw = tuple(sorted((k.arg or '**', canon(self.expr(k.value, p, bound)) if k.arg else ('starkw', canon(self.expr(k.value, p, bound)))) for k in e.keywords))
             return ('call', n, tuple(canon(a) for a in args) + kw)
         if isinstance(fn, ast.Attribute):
             if isinstance(fn.value, ast.Name) and fn.value.id in IGNORED_CALL_BASES:
@@ -723,10 +762,10 @@ class Extractor:
                 v = self.inline_value(m, [recv] + args, p)
                 if v is not None:
                     return v
-            kw = tuple(sorted((k.arg or '**', canon(self.expr(k.value, p, bound))) for k in e.keywords))
+            kw = tuple(sorted((k.arg or '**', canon(self.expr(k.value, p, bound)) if k.arg else ('starkw', canon(self.expr(k.value, p, bound)))) for k in e.keywords))
             return ('mcall', fn.attr, recv, tuple(canon(a) for a in args) + kw)
         callee = self.expr(fn, p, bound)
-        kw = tuple(sorted((k.arg or '**', canon(self.expr(k.value, p, bound))) for k in e.keywords))
+        kw = tuple(sorted((k.arg or '**', canon(self.expr(k.value, p, bound)) if k.arg else ('starkw', canon(self.expr(k.value, p, bound)))) for k in e.keywords))
         return ('apply', canon(callee), tuple(canon(a) for a in args), kw)
 
     def bind(self, target, term, bound):
@@ -1119,6 +1158,13 @@ class Extractor:
             tgt = self.expr(fn.value, p, bound)
             p.effects.append(('append', canon(tgt), canon(self.expr(c.args[0], p, bound))))
             return [p]
+        if isinstance(fn, ast.Attribute) and fn.attr == 'remove' and len(c.args) == 1 and not c.keywords \
+                and fn.attr not in self.inline:
+            # L.remove(x) is `del L[L.index(x)]` (first occurrence; ValueError when absent in both spellings)
+            tgt = canon(self.expr(fn.value, p, bound))
+            arg = canon(self.expr(c.args[0], p, bound))
+            p.effects.append(('delitem', tgt, ('mcall', 'index', tgt, (arg,))))
+            return [p]
         if isinstance(fn, ast.Attribute) and fn.attr == 'pop' and len(c.args) == 1 and not c.keywords:
             # statement-level d.pop(k): same as del d[k]
             p.effects.append(('delitem', canon(self.expr(fn.value, p, bound)), canon(self.expr(c.args[0], p, bound))))
@@ -1174,9 +1220,41 @@ class Extractor:
         finals = []
         for q in subpaths:
             finals.append(tuple(sorted((nm, canon(q.env.get(nm, ('w', nm)))) for nm in carried)))
-        p.effects.append(('while', init, canon(cond), table, tuple(sorted(set(finals), key=repr))))
+        # the loop-carried locals get position names (w0, w1, .. by first use in the condition, then in the body): the
+        # programmer's names for them are not part of what the loop does
+        order = []
+
+        def scan(t):
+            if isinstance(t, tuple):
+                if len(t) == 2 and t[0] == 'w' and isinstance(t[1], str):
+                    if t[1] not in order:
+                        order.append(t[1])
+                    return
+                for x in t:
+                    scan(x)
+        scan(canon(cond))
+        scan(table)
+        rest = sorted((nm for nm in carried if nm not in order), key=lambda nm: repr(canon(p.env[nm])) if nm in p.env else '~' + nm)
+        # locals that are only written (temporaries of the body) carry nothing in and are not read after: dropped
+        rest = [nm for nm in rest if nm in p.env]
+        names = {nm: f'w{k}' for k, nm in enumerate(order + rest)}
+
+        def ren(t):
+            if isinstance(t, tuple):
+                if len(t) == 2 and t[0] == 'w' and isinstance(t[1], str):
+                    return ('w', names.get(t[1], t[1]))
+                new = tuple(ren(x) for x in t)
+                if new and new[0] == 'table' and new != t:
+                    return recanon_table(new)
+                return new
+            return t
+        init = tuple(sorted((names[nm], v) for nm, v in init if nm in names))
+        finals2 = set()
+        for fin in finals:
+            finals2.add(tuple(sorted((names[nm], ren(v)) for nm, v in fin if nm in names)))
+        p.effects.append(('while', init, ren(canon(cond)), ren(table), tuple(sorted(finals2, key=repr))))
         for nm in carried:
-            p.env[nm] = ('after-while', nm, getattr(st, 'lineno', 0) * 0)
+            p.env[nm] = ('after-while', names.get(nm, nm), 0)
         return [p]
 
     def loop(self, st: ast.For, p: Path, bound):
@@ -1261,7 +1339,9 @@ class Extractor:
                 pr = p.clone()
                 ex = mk_any(canon(coll), canon(q.cond))
                 pr.cond = mk_and(p.cond, ex)
-                pr.ret = q.ret
+                # the element that made the loop return: the first one satisfying the exit condition
+                pr.ret = _subst(q.ret, var, ('first', canon(coll), canon(q.cond))) \
+                    if q.ret is not None and _mentions(q.ret, var) else q.ret
                 pr.done = True
                 pr.raised = q.raised
                 out.append(pr)
@@ -1472,6 +1552,7 @@ def canonical_table(paths, drop_env=False):
                     if v1 == v2 and _axiom_distinct(p_, q_):
                         return j
         return None
+    base_out = {}
     for bits in itertools.product((False, True), repeat=len(atoms)):
         if conflict(bits) is not None:
             continue
@@ -1482,14 +1563,44 @@ def canonical_table(paths, drop_env=False):
             continue
         # several paths can hold only if they agree (conditions are disjoint by construction)
         q = hit[0]
-        out_ = outcome(q, val if cofactor else None)
+        # the outcome of a path is the same for every row it covers unless the row decides something inside it: work
+        # per row only where the rendered outcome mentions what the row could rewrite (memo per path and relevant bits)
+        if id(q) not in base_out:
+            bo = outcome(q, None)
+            rep = repr(bo)
+            has_bool_store = cofactor and any(e[0] == 'set' and isinstance(e[2], tuple) and e[2] and _boolish(e[2])
+                                              and e[2] not in (TRUE, FALSE) for e in q.effects)
+            rel_ite = [i for i, a_ in enumerate(atoms) if "'ite'" in rep and repr(a_) in rep]
+            rel_eqc = [i for i in eq_subject if isinstance(eq_subject[i][0], tuple) and eq_subject[i][0]
+                       and eq_subject[i][0][0] in ('attr', 'item') and repr(eq_subject[i][0]) in rep]
+            rel_eqp = [i for i in eq_pairs if repr(sorted(eq_pairs[i], key=repr)[1]) in rep]
+            base_out[id(q)] = (bo, has_bool_store, rel_ite, rel_eqc, rel_eqp, {})
+        bo, has_bool_store, rel_ite, rel_eqc, rel_eqp, memo_ = base_out[id(q)]
+        if not (has_bool_store or rel_ite or rel_eqc or rel_eqp):
+            rows[bits] = bo
+            continue
+        mkey = bits if has_bool_store else (tuple(bits[i] for i in rel_ite), tuple(bits[i] for i in rel_eqc),
+                                            tuple(bits[i] for i in rel_eqp))
+        if mkey in memo_:
+            rows[bits] = memo_[mkey]
+            continue
+        out_ = outcome(q, val) if has_bool_store else bo
+        # conditionals inside the outcome that test an atom of this very row are decided by the row
+        for i in (range(len(atoms)) if has_bool_store else rel_ite):
+            out_ = _assume(out_, atoms[i], bits[i])
+        # under a true `X == c` (c a constant) X is c
+        for i in rel_eqc:
+            if bits[i]:
+                x_, c_ = eq_subject[i]
+                out_ = _subst(out_, x_, c_)
         # under a true `x == y` the two terms are interchangeable: one spelling (the smaller) in the outcome
-        for i, b in enumerate(bits):
-            if b and i in eq_pairs:
+        for i in rel_eqp:
+            if bits[i]:
                 x_, y_ = sorted(eq_pairs[i], key=repr)
                 if not (isinstance(x_, tuple) and isinstance(y_, tuple)):
                     continue
                 out_ = _subst(out_, y_, x_)
+        memo_[mkey] = out_
         rows[bits] = out_
     # infeasible valuations are don't-cares: filled canonically from the feasible neighbour obtained by dropping the
     # later conflicting atom, so that two tables that agree on every feasible valuation stay equal
@@ -1535,7 +1646,44 @@ def outcome(q: Path, val=None):
             effs.append(e)
     sets = tuple(sorted(((loc, v) for loc, v in final.items()
                          if v != ('attr', loc[0], loc[1])), key=repr))
-    return ('out', sets, _sort_effects(effs), canon(q.ret) if q.ret is not None else NONE)
+    out = ('out', sets, _sort_effects(effs), canon(q.ret) if q.ret is not None else NONE)
+    # fresh objects that stay anonymous (returned, not attached anywhere) are numbered by first appearance
+    for _ in range(2):
+        out = _renumber_new(out)
+        out = ('out', tuple(sorted(out[1], key=repr)), _sort_effects(out[2]), out[3])
+    return out
+
+
+def _renumber_new(out):
+    order = {}
+
+    def scan(t):
+        if isinstance(t, tuple):
+            if len(t) == 2 and t[0] == 'new' and isinstance(t[1], int):
+                order.setdefault(t, ('new', len(order) + 1))
+                return
+            for x in t:
+                scan(x)
+    scan(out[3])
+    scan(out[1])
+    scan(out[2])
+    if all(k == v for k, v in order.items()):
+        return out
+
+    def sub(t):
+        if isinstance(t, tuple):
+            if t in order:
+                return ('new!', order[t][1])
+            return tuple(sub(x) for x in t)
+        return t
+
+    def back(t):
+        if isinstance(t, tuple):
+            if len(t) == 2 and t[0] == 'new!':
+                return ('new', t[1])
+            return tuple(back(x) for x in t)
+        return t
+    return back(sub(out))
 
 
 PRIM = ('setitem', 'append', 'extend', 'delitem', 'mk')
@@ -1784,7 +1932,7 @@ KNOWN_METHODS = {'get', 'keys', 'values', 'items', 'add', 'append', 'extend', 'r
                  'difference', 'isdigit'}
 
 
-IMPRECISE = {'after-loop', 'after-while', 'while', 'w', 'apply', 'lambda', 'with', 'search', 'opaque', 'slice'}
+IMPRECISE = {'after-loop', 'after-while', 'while', 'w', 'apply', 'lambda', 'with', 'search', 'opaque', 'slice', 'starkw'}
 
 
 def _root(t):
